@@ -84,6 +84,40 @@ fn record_item(r: &mut Rng) -> String {
     out.join(" ")
 }
 
+fn directed_rollback_scripts() -> Vec<String> {
+    let nt = |ls: &[&str]| name_from(&ls.iter().map(|l| l.as_bytes().to_vec()).collect::<Vec<_>>()).unwrap();
+    let item = |name: &str, rdata: &str| format!("n:d:{name} u16:16 u16:1 u32:60 pl:u {rdata} rpl");
+    let mut v = vec![];
+    let victim = nt(&["new", "victim", "example"]);
+    let sub = nt(&["www", "new", "victim", "example"]);
+    let parent = nt(&["victim", "example"]);
+    let upper = nt(&["NEW", "Victim", "example"]);
+    let mail = nt(&["mail", "new", "victim", "example"]);
+    for pre in [0usize, 3] {
+        for variant in 0..3usize {
+            let mut ops = vec!["pl:12".to_string(), format!("iter( n:d:{} u16:1 u16:1 )", nt(&["q", "example"]))];
+            let mut first: Vec<String> = (0..pre).map(|i| item(&nt(&[format!("p{i}").as_str(), "example"]), "sl:0a000001")).collect();
+            // the item that will be dropped: new owner, new names in its RDATA
+            first.push(item(&victim, &format!("cd:{} rd:s:{}", hex(&[b'x'; 40]), mail)));
+            first.push(item(&nt(&["after", "example"]), "sl:0a000002"));
+            ops.push(format!("iter( {} )", first.join(" / ")));
+            let second = match variant {
+                0 => vec![item(&victim, "sl:0a000003"), item(&sub, "sl:0a000004")],
+                1 => vec![item(&upper, "sl:0a000003"), item(&parent, &format!("rd:s:{mail}"))],
+                _ => vec![item(&parent, &format!("rd:s:{victim}")), item(&mail, "sl:0a000005")],
+            };
+            ops.push(format!("iter( {} )", second.join(" / ")));
+            ops.push(format!("iter( {} / {} )", item(&victim, "sl:0a000006"), item(&sub, &format!("rd:o:{mail}"))));
+            ops.push("rp:000000000000000000000000".into());
+            let full = full_len(&ops) as u64;
+            for limit in 30..=full + 2 {
+                v.push(with_limit(&ops, limit, false));
+            }
+        }
+    }
+    v
+}
+
 /// `max` = None: unlimited (used to measure the full length)
 fn message_script(r: &mut Rng) -> Vec<String> {
     let mut ops = vec![];
@@ -198,8 +232,22 @@ pub fn run(o: &Opts, rec: &mut Recorder) {
             exec(&raw_script(&mut r), rec);
         }
     }
+    // directed scripts (stage 4): the names a dropped item introduced are used again right behind it
+    // (first item of the next `emit_iter`) and in a later one, under every limit
+    for l in directed_rollback_scripts() {
+        rec.stat("line.enc.directed-rollback-reuse");
+        exec(&l, rec);
+    }
     // ---------------- stage 2: whole messages under limits, and the server's response encoder
     for l in built_in_messages() {
+        exec(&l, rec);
+    }
+    for l in rollback_reuse_messages() {
+        rec.stat("line.msg.directed-rollback-reuse");
+        exec(&l, rec);
+    }
+    for l in per_type_cut_messages(o.seed, rec) {
+        rec.stat("line.msg.directed-per-type-cut");
         exec(&l, rec);
     }
     let mut r = Rng::new(o.seed ^ 0x5EC0_4D02);
@@ -240,6 +288,141 @@ fn txt(n: usize) -> RData {
 
 fn a(x: u8) -> RData {
     RData::A(A::new(10, 0, 0, x))
+}
+
+fn tsig_record(key: Name) -> Record<hickory_proto::rr::rdata::TSIG> {
+    // a well-formed TSIG RDATA (hmac-sha256., 32-octet MAC), decoded from its wire form
+    let mut d = vec![];
+    d.extend(b"\x0bhmac-sha256\x00");
+    d.extend([0, 0, 0x65, 0x4F, 0x1A, 0x00]); // time (48 bits)
+    d.extend([1, 44]); // fudge
+    d.extend([0, 32]);
+    d.extend([0xA5; 32]);
+    d.extend([0x12, 0x34, 0, 0, 0, 0]);
+    let t = match RData::read(hickory_proto::serialize::binary::BinDecoder::new(&d), RecordType::TSIG) {
+        Ok(RData::TSIG(t)) => t,
+        other => panic!("TSIG seed does not decode: {other:?}"),
+    };
+    let mut sig = Record::from_rdata(key, 0, t);
+    sig.dns_class = hickory_proto::rr::DNSClass::ANY;
+    sig
+}
+
+/// Directed family (stage 4): a record dropped by the size limit introduced NEW names, and a LATER
+/// record — the first record of the next section ("right behind the dropped record": `emit_iter`
+/// ends the section at the cut), a record of a later section, the TSIG record — uses exactly those
+/// names again: as the same owner, as a sub-domain, as an NS target, in another letter case.  After
+/// the rollback the candidate table must not retain entries at or beyond the rollback offset, with
+/// FEW candidates in the table as well as with a full one (built-in family (1)).  Every limit from
+/// just before the dropped record to past the end.
+fn rollback_reuse_messages() -> Vec<String> {
+    let mut v = vec![];
+    let victim = ["new", "victim", "example"];
+    for pre in [0usize, 4] {
+        for drop_sec in 0..3usize {
+            for reuse in 0..4usize {
+                for tail in 0..2usize {
+                    let mut m = Message::new((0x6000 + pre * 64 + drop_sec * 16 + reuse * 2 + tail) as u16, MessageType::Response, OpCode::Query);
+                    m.add_query(Query::new(nm(&["q", "example"]), RecordType::A));
+                    for i in 0..pre {
+                        let h = format!("pre{i}");
+                        m.add_answer(Record::from_rdata(nm(&[h.as_str(), "example"]), 60, a(i as u8)));
+                    }
+                    let cut_from = m.to_vec().unwrap().len();
+                    // the record that will be dropped: a new owner name and new names in its RDATA
+                    let big = Record::from_rdata(nm(&victim), 60, txt(70));
+                    let big2 = Record::from_rdata(nm(&["mx", "victim", "example"]), 60, RData::MX(hickory_proto::rr::rdata::MX::new(10, nm(&["mail", "new", "victim", "example"]))));
+                    // later users of those names
+                    let user = |k: usize| -> Record {
+                        match (reuse + k) % 4 {
+                            0 => Record::from_rdata(nm(&victim), 60, a(9)),
+                            1 => Record::from_rdata(nm(&["www", "new", "victim", "example"]), 60, a(8)),
+                            2 => Record::from_rdata(nm(&["victim", "example"]), 60, RData::NS(NS(nm(&["mail", "new", "victim", "example"])))),
+                            _ => Record::from_rdata(nm(&["NEW", "Victim", "example"]), 60, a(7)),
+                        }
+                    };
+                    match drop_sec {
+                        0 => {
+                            m.add_answer(big);
+                            m.add_answer(big2);
+                            m.add_authority(user(0));
+                            m.add_authority(user(1));
+                            m.add_additional(user(2));
+                            m.add_additional(user(3));
+                        }
+                        1 => {
+                            m.add_answer(Record::from_rdata(nm(&["q", "example"]), 60, a(1)));
+                            m.add_authority(big);
+                            m.add_authority(big2);
+                            m.add_additional(user(0));
+                            m.add_additional(user(1));
+                        }
+                        _ => {
+                            m.add_answer(Record::from_rdata(nm(&["q", "example"]), 60, a(1)));
+                            m.add_additional(big);
+                            m.add_additional(big2);
+                        }
+                    }
+                    if tail == 1 || drop_sec == 2 {
+                        let mut e = Edns::new();
+                        e.set_max_payload(1232);
+                        m.set_edns(e);
+                        // the TSIG key name is one of the names the dropped record introduced
+                        let key = match reuse {
+                            0 => nm(&victim),
+                            1 => nm(&["mail", "new", "victim", "example"]),
+                            2 => nm(&["key", "new", "victim", "example"]),
+                            _ => nm(&["NEW", "VICTIM", "example"]),
+                        };
+                        if tail == 1 {
+                            m.set_signature(Box::new(tsig_record(key)));
+                        }
+                    }
+                    let bytes = m.to_vec().unwrap();
+                    let limits: Vec<u16> = (cut_from as u16 - 2..=bytes.len() as u16 + 2).collect();
+                    v.push(msg_line(&bytes, &limits));
+                }
+            }
+        }
+    }
+    v
+}
+
+/// Directed family (stage 4): for EVERY record type with a codec, a response holding a record of that
+/// type, a second record with the same owner, an OPT record with options and a TSIG record — encoded
+/// under EVERY limit, so that the cut falls at every octet of the record, of the OPT record and of
+/// the TSIG record.
+fn per_type_cut_messages(seed: u64, rec: &mut Recorder) -> Vec<String> {
+    use crate::props::c01;
+    let mut r = Rng::new(seed ^ 0xC077_7E57);
+    let mut v = vec![];
+    let types: Vec<u16> = c01::TIER1.iter().chain(c01::SEEDED.iter()).copied().filter(|t| *t != 41 && *t != 250 && *t != 0).collect();
+    for (i, ty) in types.iter().enumerate() {
+        let Some(d) = c01::gen_rdata(&mut r, *ty, rec) else { continue };
+        let mut m = Message::new(0x7000 + i as u16, MessageType::Response, OpCode::Query);
+        m.add_query(Query::new(nm(&["q", "example"]), RecordType::from(*ty)));
+        let owner = nm(&["host", "q", "example"]);
+        m.add_answer(Record::from_rdata(owner.clone(), 300, d.clone()));
+        m.add_answer(Record::from_rdata(owner.clone(), 300, a(1)));
+        m.add_additional(Record::from_rdata(nm(&["www", "host", "q", "example"]), 300, d));
+        let mut e = Edns::new();
+        e.set_max_payload(1232);
+        e.set_dnssec_ok(true);
+        if i % 2 == 0 {
+            e.options_mut().insert(hickory_proto::rr::rdata::opt::EdnsOption::Unknown(65001, vec![1, 2, 3, 4, 5]));
+        }
+        m.set_edns(e);
+        if i % 3 != 2 {
+            m.set_signature(Box::new(tsig_record(nm(&["key", "host", "q", "example"]))));
+        }
+        let Ok(bytes) = m.to_vec() else { continue };
+        if bytes.len() > 1400 {
+            continue;
+        }
+        let limits: Vec<u16> = (0..=bytes.len() as u16 + 2).collect();
+        v.push(msg_line(&bytes, &limits));
+    }
+    v
 }
 
 /// deterministic adversarial messages, every limit in the interesting stretch
